@@ -7,11 +7,17 @@
             | (compiler vm|closure|debug|interp) | (compile <tvars> <src>) | (invoke k <vars>)
       out ::= done | (compiled ok) | (compiled err <class>) | nocallable
             | (result ok v evs) | (result fail f evs) | (result err env-…)
+
+  The history is run on `EngineVm` (`Yae/Model/EngineVm.lean`): the engine whose `vm` back end
+  compiles to bytecode and runs the machine (a refusal of the VM compiler is a compile error
+  `overflow`); `Yae.EngineVmProps.engineVm_refines` relates it to `Engine.run`, which the
+  history theorems are about.
 -/
 import Yae.Driver.Wire
 import Yae.Driver.Lex
 import Yae.Driver.Parse
 import Yae.Model.Engine
+import Yae.Model.EngineVm
 namespace Yae.Driver
 open Yae SExp Yae.Facade
 
@@ -51,12 +57,18 @@ def engineOutToSExp : Out → SExp
   | .result (.error (.env .mismatch), _) => .list [.atom "result", .atom "err", .atom "env-mismatch"]
   | .result (.error (.env .mixed), _) => .list [.atom "result", .atom "err", .atom "env-mixed"]
 
+def engineOutVmToSExp : OutVm → SExp
+  | .compiled (.error (.vm _)) => .list [.atom "compiled", .atom "err", .atom "overflow"]
+  | o => match o.erase with
+    | some out => engineOutToSExp out
+    | none => .atom "bad-out"
+
 def handleEngine : SExp → Option SExp
   | .list [.atom "engine", times, ext, .list ops] =>
     some <| match timeTableOfSExp times, externsOfSExp ext with
     | some times, some ext =>
       match ops.mapM (engineOpOfSExp times ext) with
-      | some ops => .list (.atom "outs" :: (Engine.new.run ops).2.map engineOutToSExp)
+      | some ops => .list (.atom "outs" :: (EngineVm.new.run ops).2.map engineOutVmToSExp)
       | none => .atom "bad-request"
     | _, _ => .atom "bad-request"
   | _ => none
